@@ -34,6 +34,20 @@ class ParamNoise:
         return np.random.normal(self.params[0], self.params[1], n)
 
 
+class ReplayNoise:
+    """A noise 'distribution' that replays a fixed, precomputed sequence and hands out a view of the storage
+    it owns (legal for a user callable: it returns n values)."""
+
+    def __init__(self, values):
+        self.values = np.array(values, dtype=float)
+
+    def __call__(self, n):
+        reps = -(-max(int(n), 1) // len(self.values))
+        if reps > 1:
+            return np.tile(self.values, reps)[:n]
+        return self.values[:n]
+
+
 class Failing:
     """Distribution that raises at its k-th invocation (fault kind callable.raise)."""
     _semsim_volatile = ("calls", "fired")      # its own bookkeeping, not caller data
@@ -94,6 +108,8 @@ def make_fn(spec, sempler_noise):
         return ParamCallable(spec[1], spec[2])
     if name == "paramnoise":
         return ParamNoise(spec[1], spec[2])
+    if name == "replay":
+        return ReplayNoise(spec[1])
     if name == "noise.normal":
         return sempler_noise.normal(spec[1], spec[2])
     if name == "noise.uniform":
